@@ -26,15 +26,15 @@ def run(ctx):
         prog, info = load_program(cfg, "e57")
         ctx.configs[cfg] = info
         ctx.cfg = cfg
-        history_rules.seek_first(ctx, prog, "R2")
-        page_rules.formulas(ctx, prog, "R2", side="reader")
-        history_rules.private_state(ctx, prog, "R3")
-        history_rules.reader_state_inventory(ctx, prog, "R3")
-        cache_rules.who_may_write(ctx, prog, cache_rules.PR, rule="R4")
-        cache_rules.invalidate_on_clobber(ctx, prog, cache_rules.PR, rule="R4")
-        cache_rules.validate_before_publish(ctx, prog, cache_rules.PR, "table" if cfg == "lib" else "crate", rule="R4")
-        cache_rules.serve_only_verified(ctx, prog, cache_rules.PR, rule="R4")
-        history_rules.fresh_state(ctx, prog, "R5")
+        ctx.call(history_rules.seek_first, prog, "R2")
+        ctx.call(page_rules.formulas, prog, "R2", side="reader")
+        ctx.call(history_rules.private_state, prog, "R3")
+        ctx.call(history_rules.reader_state_inventory, prog, "R3")
+        ctx.call(cache_rules.who_may_write, prog, cache_rules.PR, rule="R4")
+        ctx.call(cache_rules.invalidate_on_clobber, prog, cache_rules.PR, rule="R4")
+        ctx.call(cache_rules.validate_before_publish, prog, cache_rules.PR, "table" if cfg == "lib" else "crate", rule="R4")
+        ctx.call(cache_rules.serve_only_verified, prog, cache_rules.PR, rule="R4")
+        ctx.call(history_rules.fresh_state, prog, "R5")
     ctx.cfg = None
-    witness.run(ctx, "R1", ["rd_two_raw_iterators", "rd_simple_and_raw", "rd_blob_while_iterating", "rd_reader_field_private", "rd_paged_reader_private"])
-    cache_rules.controls(ctx)
+    ctx.call(witness.run, "R1", ["rd_two_raw_iterators", "rd_simple_and_raw", "rd_blob_while_iterating", "rd_reader_field_private", "rd_paged_reader_private"])
+    ctx.call(cache_rules.controls)
